@@ -108,7 +108,9 @@ def finish(prop, a, results, units, world, t0, seed, run_harness):
         print("UNDECIDED property=%s obligation=%s (%s) %s" % (prop, o["name"], o["status"], (o.get("detail") or "")[:300]))
     for l in lines:
         print(l)
-    n_ob = len(obligations)
+    # obligations covered by an open known finding are reported separately: they are not claimed
+    n_known = sum(1 for o in obligations if o.get("known_finding"))
+    n_ob = len(obligations) - n_known
     n_dis = sum(1 for o in obligations if o["status"] == "discharged")
     if n_ob == 0 and code == 0:
         print("CHECKER-ERROR: zero obligations generated for %s (vacuity alarm)" % prop)
@@ -152,6 +154,7 @@ def finish(prop, a, results, units, world, t0, seed, run_harness):
         "backend_queries": backend, "solver_time_s": round(solver_s, 2), "solver_time_max_obligation_s": round(max_s, 2),
         "bounded": bounded,
         "known_findings": [l for l in known_lines],
+        "obligations_under_open_known_findings": n_known,
         "undecided": [o["name"] for o in undecided],
         "violations": lines,
         "samples": samples + samples_replayed[:3],
